@@ -505,4 +505,53 @@ example : (stepCtx hx (runCtx hx Store.empty (demoCtx.take 5)) (.release "a" 3) 
 example : (runCtx hx Store.empty demoCtx).simple "b" = none ∧ (runCtx hx Store.empty demoCtx).tracker "b" = none ∧
     (runCtx hx Store.empty demoCtx).tracker "a" = some (1, ⟨true, true, false⟩) := by decide
 example : RecoveredCtx hx demoCtx 3 (runCtx hx Store.empty (demoCtx.take 4)) := .committed (by decide)
+/-! ## Torn log tails
+
+`Recovered` above is derived from what is on disk: the log of the killed process holds the commit mark of every
+acknowledged call (COMMIT returns only after the commit frame is written) and at most that of the call in
+flight; behind them there may be whole frames without commit mark and a partly written frame.  Re-opening
+(`reopenLog`: the constructor leaves the log alone) shows the same store whatever that tail is. -/
+
+/-- C23 (`torn_tail_ignored`): frames without commit mark and a partly written frame behind the committed part
+of the log change nothing of what re-opening shows. -/
+theorem torn_tail_ignored (h : String → Nat) (ops : List Op) (frames pend : List Frame) (torn torn' : Nat)
+    (hp : ∀ f ∈ pend, f.commit = false) :
+    reopened h ops ⟨frames ++ pend, torn⟩ = reopened h ops ⟨frames, torn'⟩ := by
+  have : pend.filter (·.commit) = [] := by
+    apply List.filter_eq_nil_iff.mpr
+    intro f hf
+    simp [hp f hf]
+  simp [reopened, reopenLog, replayed, List.filter_append, this]
+
+/-- C23 (`reopened_is_recovered`): if the log holds the commit marks of all `acked` acknowledged calls and at most
+one more (the call in flight), then - whatever lies behind the last commit mark, whole frames or a torn one - the
+re-opened store satisfies `Recovered`: it is the store after a prefix of the issued calls that contains every
+acknowledged one. -/
+theorem reopened_is_recovered (h : String → Nat) (ops : List Op) (acked : Nat) (l : Log)
+    (hlo : acked ≤ replayed l) (hhi : replayed l ≤ acked + 1) (hlen : replayed l ≤ ops.length) :
+    Recovered h ops acked (reopened h ops l) := by
+  by_cases he : replayed l = acked
+  · simpa [reopened, reopenLog, he] using (Recovered.notCommitted (h := h) (ops := ops) (acked := acked) (he ▸ hlen))
+  · have h1 : replayed l = acked + 1 := by omega
+    simpa [reopened, reopenLog, h1] using (Recovered.committed (h := h) (ops := ops) (acked := acked) (by omega))
+
+/-- C23 (`torn_log_prefix`): the two together with `tx_atomic_prefix` - a log with a torn tail re-opens to a
+consistent store of a prefix `n` of the issued calls, `acked ≤ n ≤ acked + 1`. -/
+theorem torn_log_prefix (h : String → Nat) (ops : List Op) (acked : Nat) (frames pend : List Frame) (torn : Nat)
+    (hp : ∀ f ∈ pend, f.commit = false)
+    (hlo : acked ≤ replayed ⟨frames, 0⟩) (hhi : replayed ⟨frames, 0⟩ ≤ acked + 1)
+    (hlen : replayed ⟨frames, 0⟩ ≤ ops.length) :
+    ∃ n, acked ≤ n ∧ n ≤ acked + 1 ∧ n ≤ ops.length ∧
+      reopened h ops ⟨frames ++ pend, torn⟩ = run h Store.empty (ops.take n) ∧
+      Consistent h (reopened h ops ⟨frames ++ pend, torn⟩) := by
+  rw [torn_tail_ignored h ops frames pend torn 0 hp]
+  exact tx_atomic_prefix h ops acked _ (reopened_is_recovered h ops acked ⟨frames, 0⟩ hlo hhi hlen)
+
+/-- non-vacuity: two acknowledged puts (two frames each), the third call in flight has logged one whole frame
+and 24 bytes (the frame header) of its second when the kill comes -/
+example : reopened hx demo ⟨[⟨false⟩, ⟨true⟩, ⟨false⟩, ⟨true⟩] ++ [⟨false⟩], 24⟩ = run hx Store.empty (demo.take 2) :=
+  torn_tail_ignored hx demo _ [⟨false⟩] 24 0 (by decide) |>.trans rfl
+example : Recovered hx demo 2 (reopened hx demo ⟨[⟨false⟩, ⟨true⟩, ⟨false⟩, ⟨true⟩], 0⟩) :=
+  reopened_is_recovered hx demo 2 _ (by decide) (by decide) (by decide)
+
 end Specter.C23
